@@ -166,6 +166,16 @@ fn tables() -> &'static Tables {
     TABLES.get().unwrap()
 }
 
+/// real state of the DISPATCHERS lock: (a reader could enter, a writer could enter)
+#[cfg(h3_lockprobe)]
+fn lock_probe() -> Option<(bool, bool)> {
+    Some(tracing_core::callsite::__verif_lock_state())
+}
+#[cfg(not(h3_lockprobe))]
+fn lock_probe() -> Option<(bool, bool)> {
+    None
+}
+
 fn yp(id: u32) {
     tracing_core::__verif::yield_point(id);
 }
@@ -231,6 +241,10 @@ impl<C: Collect + 'static> Collect for Observed<C> {
         self.inner.downcast_raw(id)
     }
 }
+
+/// a layer with no opinion (max_level_hint = None, interested in everything)
+struct NopLayer;
+impl Subscribe<tracing_subscriber::subscribe::Layered<reload::Subscriber<Box<dyn Subscribe<Registry> + Send + Sync>>, Registry>> for NopLayer {}
 
 /// recording layer for the per-layer-filter stack
 struct RecLayer { name: u64 }
@@ -303,7 +317,9 @@ fn run_op(op: &Op) {
                 1 => {
                     let (layer, handle) = reload::Subscriber::new(spec.boxed_layer());
                     *tb.rhandles[c].lock().unwrap() = Some(RHandle::Layer(handle));
-                    Dispatch::new(Observed { name, inner: Registry::default().with(layer), log_enabled: true, deliver_here: true })
+                    // NopLayer on top: a stack whose only layer is `None` hints OFF by design (tests/option.rs); with
+                    // any other layer present `None` is transparent, which is the documented meaning used by the spec
+                    Dispatch::new(Observed { name, inner: Registry::default().with(layer).with(NopLayer), log_enabled: true, deliver_here: true })
                 }
                 _ => {
                     let (filter, handle) = reload::Subscriber::new(spec.boxed_filter());
@@ -588,10 +604,12 @@ fn main() {
         for (i, &t) in sched.iter().enumerate() {
             if t >= nthreads { ys.push(998); continue; }
             let st = s.m.lock().unwrap().status[t];
+            // every worker is parked here, so the probe sees exactly the locks held by parked threads
+            let (can_read, can_write) = lock_probe().unwrap_or((sh_writer.is_none(), sh_writer.is_none() && sh_readers == 0));
             let runnable = match st {
                 Status::Done | Status::Running => false,
-                Status::Parked(10) => sh_writer.is_none() && sh_readers == 0,
-                Status::Parked(20) => sh_writer.is_none(),
+                Status::Parked(10) => can_write,
+                Status::Parked(20) => can_read,
                 Status::Parked(_) => true,
             };
             if !runnable { ys.push(998); continue; }
@@ -617,7 +635,16 @@ fn main() {
         let all_done = s.m.lock().unwrap().status.iter().all(|x| *x == Status::Done);
         out(format!("{{\"k\":\"yields\",\"y\":[{}]}}", ys.iter().map(|x| x.to_string()).collect::<Vec<_>>().join(",")));
         out(format!("{{\"k\":\"sched_log\",\"ev\":{}}}", jev(&LOG.lock().unwrap()[log0..])));
-        out(format!("{{\"k\":\"finished\",\"v\":{},\"max\":{}}}", all_done, lf_rank(LevelFilter::current())));
+        let stuck = !all_done && {
+            let (can_read, can_write) = lock_probe().unwrap_or((true, true));
+            s.m.lock().unwrap().status.iter().all(|x| match x {
+                Status::Done => true,
+                Status::Parked(10) => !can_write,
+                Status::Parked(20) => !can_read,
+                _ => false,
+            })
+        };
+        out(format!("{{\"k\":\"finished\",\"v\":{},\"max\":{},\"deadlock\":{},\"probe\":{}}}", all_done, lf_rank(LevelFilter::current()), stuck, lock_probe().is_some()));
         {
             let mut g = s.m.lock().unwrap();
             g.free = true;
